@@ -1,11 +1,15 @@
 """C18 - stream decoders are independent of how the bytes are chunked.
 
 (A) MC_Stream: TLC checks the incremental design (Stream.tla: UTF-8 carry, pending CR, partial line, block
-    accumulation, blank-line dispatch, final flush) against the whole-stream meaning (StreamCore!Events / Records)
-    for EVERY (stream, chunking) pair of the family (StreamFamily.tla) - invariant ChunkIndependent.
-(B) Gen_Stream: TLC emits the same (stream, chunking) pairs as JSON scenarios (same operators, same bounds).
+    accumulation, blank-line dispatch, final flush; decode step parameterised by the declared charset) against the
+    whole-stream meaning (StreamCore!Events / Records) for EVERY (stream, charset, chunking) of the family
+    (StreamFamily.tla) - invariant ChunkIndependent.
+    MC_StreamPair: two decoders with their own state under every interleaving of their chunks (and with stream 1
+    abandoned mid-event) - invariant StreamsIndependent; the same run prints every schedule.
+(B) Gen_Stream / MC_StreamPair: TLC emits the (stream, chunking) pairs and the two-stream schedules as JSON.
 (C) harness/w_stream.py drives the real iter_sse / iter_sse_events_text / iter_ndjson / iter_bytes over
-    httpx.Response(200, content=<async chunk iterator>) for every pair; Trace_Stream.tla (TLC) judges.
+    httpx.Response(200, headers=<Content-Type dimension>, content=<async chunk iterator>) for every scenario
+    (two asyncio tasks whose chunk iterators follow the schedule for the pairs); Trace_Stream.tla (TLC) judges.
 """
 
 from __future__ import annotations
@@ -19,20 +23,39 @@ from .core import Check, run_tlc
 
 LEVEL = "model_checking"
 
+# full / cuts: chunkings of the default response (no Content-Type); afull / acuts: chunkings replayed under every other
+# Content-Type; pcuts: cuts per stream in two-stream schedules; combos: helper pairs for SSE+SSE schedules
 BOUNDS = {
-    "quick": {"tier": 1, "full": 12, "cuts": 2},
-    "thorough": {"tier": 2, "full": 14, "cuts": 3},
+    "quick": {"tier": 1, "full": 12, "cuts": 2, "afull": 7, "acuts": 1, "pcuts": 1, "combos": 2},
+    "thorough": {"tier": 2, "full": 14, "cuts": 3, "afull": 10, "acuts": 2, "pcuts": 2, "combos": 3},
 }
 # cut kinds that must be present by construction (counted, not assumed)
 MUST_KINDS = ("in_char", "cr_lf", "between_lines", "before_blank", "in_line")
 BATCH_PAIRS = 400_000  # (stream, chunking) pairs per monitor run
+HEAP = "3g"
+# FeedAll / DecFrom recurse once per character and TLC's interpreter needs many Java frames per level: with the default
+# thread stack a 50-character chunk occasionally ended in a StackOverflowError (before the JIT had compiled the
+# evaluator, and always with -coverage), i.e. a flaky machinery failure.  Worker threads get a bigger stack.
+JVM = {"JAVA_TOOL_OPTIONS": "-Xss64m"}
+
+BASE_CT = {"sse": "text/event-stream", "ndjson": "application/x-ndjson"}
+# (name, Content-Type suffix or None for "no header", decode-step parameter of the model, is the whole-stream meaning a
+#  property clause under this header?, which chunking set)
+HEADERS = [
+    ("none", None, "utf8", True, "chunkings"),
+    ("no-charset", "", "utf8", True, "alt"),
+    ("utf-8", "; charset=utf-8", "utf8", True, "alt"),
+    ("ISO-8859-1", ";charset=ISO-8859-1", "latin1", False, "alt"),
+    ("latin-1", "; charset=latin-1", "latin1", False, "alt"),
+    ("unknown", "; charset=x-unknown-9", "utf8", False, "alt"),
+]
 
 
 def consts(b: dict, with_streams: bool) -> str:
     s = "CONSTANTS\n"
     if with_streams:
         s += " Streams <- MCStreams\n"
-    return s + f" Tier = {b['tier']}\n MaxFullLen = {b['full']}\n MaxCuts = {b['cuts']}\n"
+    return s + f" Tier = {b['tier']}\n MaxFullLen = {b['full']}\n MaxCuts = {b['cuts']}\n AltFullLen = {b['afull']}\n AltMaxCuts = {b['acuts']}\n"
 
 
 MC_CFG = (
@@ -42,59 +65,133 @@ MC_CFG = (
 
 
 def design(chk: Check, b: dict) -> tuple[int, int]:
-    """Returns (pairs, distinct states) of the full design run (0, 0 when the design itself is refuted)."""
+    """Returns (scenarios, distinct states) of the full design run (0, 0 when the design itself is refuted)."""
     # (i) per-action coverage on reduced bounds (-coverage costs a factor 3 on the full family)
-    small = {"tier": b["tier"], "full": 6, "cuts": 0}
-    r = run_tlc(chk.scratch, "MC_Stream", "SPECIFICATION Spec\n" + consts(small, True) + MC_CFG, coverage=True, allow_violation=True, timeout=1500)
+    small = dict(b, full=6, cuts=0, afull=4, acuts=0)
+    r = run_tlc(chk.scratch, "MC_Stream", "SPECIFICATION Spec\n" + consts(small, True) + MC_CFG, coverage=True, allow_violation=True, timeout=1500, heap=HEAP, env=JVM)
     chk.add_tlc(f"MC_Stream[coverage run: tier={small['tier']},full<={small['full']},cuts<={small['cuts']}]", r)
     if not r.violated:
         for act in ("Deliver", "Close"):
             chk.require(r.coverage.get(act, (0, 0))[1] > 0, f"vacuous design run: action {act} never taken")
     # (ii) the full family; non-vacuity through the state-count identity checked in run()
-    r = run_tlc(chk.scratch, "MC_Stream", "SPECIFICATION Spec\n" + consts(b, True) + MC_CFG, allow_violation=True, timeout=1500)
-    chk.add_tlc(f"MC_Stream[tier={b['tier']},full<={b['full']},cuts<={b['cuts']}]", r)
+    r = run_tlc(chk.scratch, "MC_Stream", "SPECIFICATION Spec\n" + consts(b, True) + MC_CFG, allow_violation=True, timeout=1500, heap=HEAP, env=JVM)
+    chk.add_tlc(f"MC_Stream[tier={b['tier']},full<={b['full']},cuts<={b['cuts']},alt full<={b['afull']},alt cuts<={b['acuts']}]", r)
     if r.violated:
         # the modelled incremental design itself is chunk-dependent: a specification-level counterexample
         chk.fail("C18.design_invariant", {"invariant": r.violated[0]}, {"bounds": b}, r.out[-2500:])
         return 0, 0
     m = re.search(r"Finished computing initial states: (\d+) distinct state", r.out)
     chk.require(m is not None, "cannot read the number of initial states of the design run")
-    pairs = int(m.group(1))  # one initial state per (stream, chunking) pair
-    chk.cov["design_pairs_checked"] = pairs
-    chk.clause("Stream!ChunkIndependent", pairs)
-    return pairs, r.distinct
+    n = int(m.group(1))  # one initial state per (stream, charset, chunking)
+    chk.cov["design_scenarios_checked"] = n
+    chk.clause("Stream!ChunkIndependent", n)
+    return n, r.distinct
 
 
 def generate(chk: Check, b: dict) -> list[dict]:
     cfg = "SPECIFICATION Spec\n" + consts(b, False) + "CHECK_DEADLOCK FALSE\n"
-    r = run_tlc(chk.scratch, "Gen_Stream", cfg, timeout=1500)
+    r = run_tlc(chk.scratch, "Gen_Stream", cfg, timeout=1500, heap=HEAP, env=JVM)
     chk.add_tlc("Gen_Stream", r)
     scen = r.printed.get("SCEN", [])
     chk.require(len(scen) > 0, "Gen_Stream produced no scenario")
     scen.sort(key=lambda s: (s["mode"], s["bytes"]))
     for i, s in enumerate(scen):
         s["id"] = f"{s['mode']}{i:05d}"
-        s["chunkings"] = sorted(s["chunkings"], key=lambda c: (len(c), c))
-        chk.require(s["chunkings"][0] == [], "the unsplit stream is not part of the chunkings")
+        for k in ("chunkings", "alt"):
+            s[k] = sorted(s[k], key=lambda c: (len(c), c))
+            chk.require(s[k][0] == [], "the unsplit stream is not part of the chunkings")
         chk.require(all(0 <= x <= 255 for x in s["bytes"]), "byte out of range")
     return scen
 
 
-def observe(chk: Check, scen: list[dict]) -> list[dict]:
-    jobs = [{"id": s["id"], "mode": s["mode"], "bytes": s["bytes"], "chunkings": s["chunkings"]} for s in scen]
+def ctype_of(mode: str, suffix: str | None) -> str | None:
+    return None if suffix is None else BASE_CT[mode] + suffix
+
+
+def observe(chk: Check, scen: list[dict], headers: list[tuple] = HEADERS) -> list[dict]:
+    """One trace per (stream, Content-Type)."""
+    jobs = []
+    meta = {}
+    for s in scen:
+        for name, suffix, charset, judge_spec, which in headers:
+            jid = f"{s['id']}/{name}"
+            jobs.append({"id": jid, "mode": s["mode"], "bytes": s["bytes"], "ctype": ctype_of(s["mode"], suffix), "chunkings": s[which]})
+            meta[jid] = (s, name, charset, judge_spec)
     order = sorted(jobs, key=lambda j: -len(j["chunkings"]) * (3 if j["mode"] == "sse" else 2))
     res = {r["id"]: r for r in core.parallel_py(chk.scratch, "harness.w_stream", order)}
     traces = []
-    for s in scen:
-        r = res[s["id"]]
-        for a in r["absent"]:
-            chk.cov.setdefault("helpers_absent", [])
-            if a not in chk.cov["helpers_absent"]:
-                chk.cov["helpers_absent"].append(a)
+    for j in jobs:
+        r = res[j["id"]]
+        s, name, charset, judge_spec = meta[j["id"]]
+        note_absent(chk, r["absent"])
         chk.require(any(d["name"] != "iter_bytes" for d in r["dec"]), f"no event/record helper to drive for mode {s['mode']}")
         chk.cov["helper_runs"] = chk.cov.get("helper_runs", 0) + r["runs"]
         chk.cov["iter_bytes_boundaries_preserved"] = chk.cov.get("iter_bytes_boundaries_preserved", 0) + r.get("same_chunks", 0)
-        traces.append({"id": s["id"], "mode": s["mode"], "bytes": s["bytes"], "chunkings": s["chunkings"], "dec": r["dec"]})
+        traces.append({"id": j["id"], "kind": "single", "mode": s["mode"], "bytes": s["bytes"], "header": name, "ctype": j["ctype"] or "", "charset": charset, "judgeSpec": judge_spec, "chunkings": j["chunkings"], "dec": r["dec"]})
+    return traces
+
+
+def note_absent(chk: Check, names: list[str]) -> None:
+    for a in names:
+        lst = chk.cov.setdefault("helpers_absent", [])
+        if a not in lst:
+            lst.append(a)
+
+
+# ---------------------------------------------------------------------------------------------
+# two streams in one process
+
+
+def pair_schedules(chk: Check, b: dict) -> list[dict]:
+    cfg = (
+        f"SPECIFICATION Spec\nCONSTANTS\n PairScenarios <- MCPairs\n Tier = {b['tier']}\n PairMaxCuts = {b['pcuts']}\n AllowAbort = TRUE\n"
+        "INVARIANT StreamsIndependent\nCHECK_DEADLOCK FALSE\n"
+    )
+    r = run_tlc(chk.scratch, "MC_StreamPair", cfg, allow_violation=True, timeout=1500, heap=HEAP, env=JVM)
+    chk.add_tlc(f"MC_StreamPair[tier={b['tier']},cuts<={b['pcuts']}]", r)
+    if r.violated:
+        chk.fail("C18.design_invariant", {"invariant": r.violated[0]}, {"bounds": b}, r.out[-2500:])
+        return []
+    sch = r.printed.get("SCHED", [])
+    chk.require(len(sch) > 0, "MC_StreamPair printed no schedule")
+    chk.require(any(s["mid"] for s in sch), "no schedule switches streams while an event is partly received")
+    chk.require(any(x % 10 == 2 for s in sch for x in s["sched"]), "no schedule abandons a stream")
+    chk.clause("StreamPair!StreamsIndependent", len(sch))
+    sch.sort(key=lambda s: json.dumps([s["am"], s["ab"], s["bm"], s["bb"], s["c1"], s["c2"], s["sched"]]))
+    return sch
+
+
+def helper_combos(am: str, bm: str, n: int) -> list[tuple[str, str]]:
+    one = {"sse": "iter_sse", "ndjson": "iter_ndjson"}
+    if am == "sse" and bm == "sse":
+        return [("iter_sse", "iter_sse"), ("iter_sse", "iter_sse_events_text"), ("iter_sse_events_text", "iter_sse")][:n]
+    return [(one[am], one[bm])]
+
+
+def observe_pairs(chk: Check, sch: list[dict], b: dict, piece: int = 400) -> list[dict]:
+    groups: dict[str, list[dict]] = {}
+    for s in sch:
+        groups.setdefault(json.dumps([s["am"], s["ab"], s["bm"], s["bb"]]), []).append(s)
+    jobs = []
+    for gi, (key, runs) in enumerate(sorted(groups.items())):
+        am, ab, bm, bb = json.loads(key)
+        for ha, hb in helper_combos(am, bm, b["combos"]):
+            for lo in range(0, len(runs), piece):
+                part = runs[lo : lo + piece]
+                jobs.append({
+                    "id": f"pair{gi}:{ha}+{hb}:{lo}", "kind": "pair",
+                    "streams": [{"mode": am, "bytes": ab, "helper": ha}, {"mode": bm, "bytes": bb, "helper": hb}],
+                    "runs": [{"c1": s["c1"], "c2": s["c2"], "sched": s["sched"], "mid": s["mid"]} for s in part],
+                })
+    res = core.parallel_py(chk.scratch, "harness.w_stream", jobs)
+    traces = []
+    for j, r in zip(jobs, res):
+        note_absent(chk, r["absent"])
+        if r["absent"]:
+            continue
+        chk.cov["helper_runs"] = chk.cov.get("helper_runs", 0) + 2 * r["runs"]
+        traces.append({"id": j["id"], "kind": "pair", "s": j["streams"], "runs": j["runs"], "ref": r["ref"], "outs": r["outs"], "idx": r["idx"]})
+    chk.require(len(traces) > 0, "no two-stream scenario could be driven")
     return traces
 
 
@@ -102,63 +199,103 @@ def text_of(bs: list[int]) -> str:
     return bytes(bs).decode("utf-8", "backslashreplace").encode("unicode_escape").decode("ascii")
 
 
+# ---------------------------------------------------------------------------------------------
+# judging
+
+
 def judge(chk: Check, traces: list[dict], label: str) -> None:
     by_id = {t["id"]: t for t in traces}
     batches: list[list[dict]] = [[]]
     size = 0
     for t in traces:
-        if batches[-1] and size + len(t["chunkings"]) > BATCH_PAIRS:
+        n = len(t["chunkings"]) if t["kind"] == "single" else len(t["runs"])
+        if batches[-1] and size + n > BATCH_PAIRS:
             batches.append([])
             size = 0
         batches[-1].append(t)
-        size += len(t["chunkings"])
+        size += n
     for lo, part in enumerate(batches):
         d = chk.scratch.sub("str")
         tf = d / "traces.ndjson"
         with tf.open("w") as f:
             for t in part:
                 f.write(json.dumps(t, separators=(",", ":")) + "\n")
-        r = run_tlc(chk.scratch, "Trace_Stream", "SPECIFICATION Spec\nCHECK_DEADLOCK FALSE\n", env={"TRACE_FILE": str(tf)}, timeout=1500)
+        r = run_tlc(chk.scratch, "Trace_Stream", "SPECIFICATION Spec\nCHECK_DEADLOCK FALSE\n", env={"TRACE_FILE": str(tf), **JVM}, timeout=1500, heap=HEAP)
         chk.add_tlc(f"Trace_Stream[{label}:{lo}]", r)
         vs = r.printed.get("VERDICT", [])
         chk.require(len(vs) == len(part) and {v["id"] for v in vs} == {t["id"] for t in part}, f"monitor produced {len(vs)} verdicts for {len(part)} traces")
         tf.unlink()
         for v in vs:
-            t = by_id[v["id"]]
-            ndec = len(t["dec"])
-            chk.cov["traces_validated_against_impl"] += v["nruns"] * ndec
-            chk.count(v["nruns"])
-            chk.cov["pairs_replayed"] = chk.cov.get("pairs_replayed", 0) + v["nruns"]
-            for j in range(v["inner"]):
-                chk.nontrivial(f"{v['id']}#{j}")
-            kc = chk.cov.setdefault("pairs_with_cut_kind", {})
-            for k, n in v["byKind"].items():
-                kc[k] = kc.get(k, 0) + n
-            for dd in t["dec"]:
-                if dd["name"] == "iter_bytes":
-                    chk.clause("C18.bytes_concat", v["nruns"])
-                else:
-                    chk.clause("C18.differs_from_unsplit", v["nruns"] - 1)
-                    chk.clause("C18.differs_from_spec", 1)
-                    chk.clause("C18.order", v["nruns"] if v["nitems"] > 1 else 0)
-                    chk.clause("C18.last_event_lost", v["nruns"] if v["lastopen"] else 0)
-            if v["commentOnly"]:
-                key = "comment_only_block_streams_delivering_empty_event" if v["commentOnlyDelivered"] else "comment_only_block_streams_delivering_nothing"
-                chk.cov[key] = chk.cov.get(key, 0) + 1
-            for fl in (f for per_helper in v["fails"] for f in per_helper):
-                loc: dict[str, Any] = {"helper": fl["dec"], "relative_to": fl["rel"], "error": fl["err"]}
-                if fl["rel"] == "unsplit":
-                    loc["cut_kinds"] = sorted(fl["kinds"])
-                else:
-                    loc["differs_in"] = fl["field"]
-                scen = {"mode": t["mode"], "bytes": t["bytes"], "text": text_of(t["bytes"]), "cuts": fl["cuts"], "helper": fl["dec"]}
-                dd = next(x for x in t["dec"] if x["name"] == fl["dec"])
-                got = dd["outs"][dd["idx"][t["chunkings"].index(fl["cuts"])] - 1]
-                ref = "the unsplit run" if fl["rel"] == "unsplit" else "the whole-stream meaning (StreamCore.tla)"
-                chk.fail(fl["clause"], loc, scen, f"{fl['dec']} on {text_of(t['bytes'])!r} cut at {fl['cuts']} yielded {show(got)}; {ref} gives {show({'items': fl['exp'], 'err': 'none'})}")
-    if traces:
-        t = traces[len(traces) // 2]
+            if v["kind"] == "pair":
+                account_pair(chk, by_id[v["id"]], v)
+            else:
+                account_single(chk, by_id[v["id"]], v)
+    singles = [t for t in traces if t["kind"] == "single" and t["header"] == "none"]
+    if singles:
+        t = singles[len(singles) // 2]
         chk.sample({"stream": text_of(t["bytes"]), "mode": t["mode"], "bytes": t["bytes"], "chunkings": len(t["chunkings"]), "example_chunking": t["chunkings"][-1], "observed": {d["name"]: {"distinct_outputs": len(d["outs"]), "unsplit": show(d["outs"][d["idx"][0] - 1])} for d in t["dec"]}})
+    pairs = [t for t in traces if t["kind"] == "pair"]
+    if pairs:
+        t = pairs[len(pairs) // 2]
+        chk.sample({"two_streams": [text_of(x["bytes"]) for x in t["s"]], "helpers": [x["helper"] for x in t["s"]], "schedules": len(t["runs"]), "example_schedule": t["runs"][len(t["runs"]) // 2], "alone": [show(o) for o in t["ref"]]})
+
+
+def account_single(chk: Check, t: dict, v: dict) -> None:
+    ndec = len(t["dec"])
+    default = t["header"] == "none"
+    chk.cov["traces_validated_against_impl"] += v["nruns"] * ndec
+    chk.count(v["nruns"])
+    chk.cov["scenarios_replayed"] = chk.cov.get("scenarios_replayed", 0) + v["nruns"]
+    hk = chk.cov.setdefault("scenarios_by_content_type", {})
+    hk[t["header"]] = hk.get(t["header"], 0) + v["nruns"]
+    for j in range(v["inner"]):
+        chk.nontrivial(f"{v['id']}#{j}")
+    kc = chk.cov.setdefault("pairs_with_cut_kind" if default else "alt_header_scenarios_with_cut_kind", {})
+    for k, n in v["byKind"].items():
+        kc[k] = kc.get(k, 0) + n
+    for dd in t["dec"]:
+        if dd["name"] == "iter_bytes":
+            chk.clause("C18.bytes_concat", v["nruns"])
+        else:
+            chk.clause("C18.differs_from_unsplit", v["nruns"] - 1)
+            chk.clause("C18.differs_from_spec", 1 if t["judgeSpec"] else 0)
+            chk.clause("C18.order", v["nruns"] if v["nitems"] > 1 else 0)
+            chk.clause("C18.last_event_lost", v["nruns"] if v["lastopen"] else 0)
+    if v["commentOnly"] and default:
+        key = "comment_only_block_streams_delivering_empty_event" if v["commentOnlyDelivered"] else "comment_only_block_streams_delivering_nothing"
+        chk.cov[key] = chk.cov.get(key, 0) + 1
+    if v["specdrift"]:
+        n = chk.cov["model_drift_under_declared_charset"] = chk.cov.get("model_drift_under_declared_charset", 0) + 1
+        if n <= 2:
+            chk.note_drift(f"under Content-Type {t['ctype']!r} the unsplit run of {text_of(t['bytes'])!r} is not what StreamCore.tla predicts for charset class {t['charset']} (no clause depends on it)")
+    for fl in (f for per_helper in v["fails"] for f in per_helper):
+        loc: dict[str, Any] = {"helper": fl["dec"], "relative_to": fl["rel"], "error": fl["err"], "content_type": t["header"]}
+        if fl["rel"] == "unsplit":
+            loc["cut_kinds"] = sorted(fl["kinds"])
+        else:
+            loc["differs_in"] = fl["field"]
+        scen = {"mode": t["mode"], "bytes": t["bytes"], "text": text_of(t["bytes"]), "header": t["header"], "ctype": t["ctype"], "cuts": fl["cuts"], "helper": fl["dec"]}
+        dd = next(x for x in t["dec"] if x["name"] == fl["dec"])
+        got = dd["outs"][dd["idx"][t["chunkings"].index(fl["cuts"])] - 1]
+        ref = "the unsplit run" if fl["rel"] == "unsplit" else "the whole-stream meaning (StreamCore.tla)"
+        chk.fail(fl["clause"], loc, scen, f"{fl['dec']} (Content-Type {t['ctype'] or 'absent'}) on {text_of(t['bytes'])!r} cut at {fl['cuts']} yielded {show(got)}; {ref} gives {show({'items': fl['exp'], 'err': 'none'})}")
+
+
+def account_pair(chk: Check, t: dict, v: dict) -> None:
+    chk.cov["traces_validated_against_impl"] += 2 * v["nruns"]
+    chk.count(v["nruns"])
+    for k_cov, k_v in (("schedules_replayed", "nruns"), ("schedules_switching_mid_event", "nmid"), ("schedules_sequential", "nseq"), ("schedules_with_abandoned_stream", "nabort")):
+        chk.cov[k_cov] = chk.cov.get(k_cov, 0) + v[k_v]
+    chk.clause("C18.streams_interfere", 2 * v["nruns"])
+    for j in range(v["nmid"]):
+        chk.nontrivial(f"{v['id']}#{j}")
+    for fl in (f for side in v["fails"] for f in side):
+        i = fl["side"] - 1
+        loc = {"helper": fl["dec"], "other_helper": fl["other"], "history": fl["history"], "other_abandoned": fl["otherAborted"], "self_abandoned": fl["selfAborted"], "error": fl["err"]}
+        run = t["runs"][fl["run"] - 1] if fl["run"] else {"c1": [], "c2": [], "sched": []}
+        scen = {"kind": "pair", "streams": t["s"], "texts": [text_of(x["bytes"]) for x in t["s"]], "run": run, "side": fl["side"]}
+        got = t["outs"][i][t["idx"][i][fl["run"] - 1] - 1] if fl["run"] else t["ref"][i]
+        chk.fail(fl["clause"], loc, scen, f"stream {fl['side']} {text_of(t['s'][i]['bytes'])!r} ({fl['dec']}) next to {text_of(t['s'][1 - i]['bytes'])!r} ({fl['other']}), cuts {run['c1']}/{run['c2']}, schedule {run['sched']}: yielded {show(got)}; alone it yields {show({'items': fl['exp'], 'err': 'none'})} [{fl['nbad']} schedule(s) differ]")
 
 
 def show(o: dict) -> str:
@@ -179,48 +316,74 @@ def run(chk: Check) -> None:
         f"streams from the grammar of specs/StreamFamily.tla (Tier={b['tier']}: SSE 1-3 blocks x block shapes x payloads incl. empty, "
         f"{'2/3' if b['tier'] == 1 else '2/3/4'}-byte characters, trailing blank x LF/CRLF{'/alternating' if b['tier'] > 1 else ''} x last block closed / line-terminated / cut; NDJSON 1-3 records x LF/CRLF x "
         f"blank line between x last record terminated or not); chunkings: every subset of cut points for streams <= {b['full']} bytes, "
-        f"every chunking with <= {b['cuts']} cuts beyond; each pair is (i) an initial state of the TLC design check and (ii) replayed on the "
-        "real helpers; non-trivial = (stream, chunking) pair with at least one cut strictly inside an event / record "
-        "(StreamCore!CutKind # at_rest), distinct because streams and cut sets are sets"
+        f"every chunking with <= {b['cuts']} cuts beyond (response without Content-Type); under each of 5 further Content-Types (no charset, utf-8, "
+        f"ISO-8859-1, latin-1, unknown charset) every subset for streams <= {b['afull']} bytes and every chunking with <= {b['acuts']} cuts beyond; "
+        f"two streams in one event loop: every interleaving of their chunks (<= {b['pcuts']} key cuts per stream or a cut at every line boundary), "
+        "stream 1 also abandoned after any chunk; each scenario is (i) explored by the TLC design check and (ii) replayed on the "
+        "real helpers; non-trivial = (stream, header, chunking) with at least one cut strictly inside an event / record "
+        "(StreamCore!CutKind # at_rest) or schedule that switches streams while an event is partly received (StreamPair!mid)"
     )
     chk.assumptions += [
         "streams are valid UTF-8 with LF / CRLF terminators (bare CR, BOM, invalid UTF-8, other Unicode line separators are outside the property's statement)",
         "comment-only blocks: the monitor accepts both 'empty event delivered' and 'nothing delivered' (the property fixes only blocks with >= 1 field line); which one the code does is recorded",
         "NDJSON values are compared through their canonical JSON text (family records are canonical under json.dumps(ensure_ascii=False, separators=(',',':')))",
         "iter_bytes is judged on the concatenation of what it yields; whether chunk boundaries are preserved is recorded, not judged",
+        "under a declared non-UTF-8 or unknown charset only the chunk-independence relation (same items as the unsplit run under the same header) is a clause; the model's prediction for that charset is compared as DRIFT only",
+        "an abandoned stream is one whose transport raises httpx.ReadError instead of delivering its next chunk",
     ]
-    pairs_mc, states_mc = design(chk, b)
+    n_mc, states_mc = design(chk, b)
     scen = generate(chk, b)
-    npairs = sum(len(s["chunkings"]) for s in scen)
+    n_main = sum(len(s["chunkings"]) for s in scen)
+    n_alt = sum(len(s["alt"]) for s in scen)
     chk.cov["streams"] = len(scen)
     chk.cov["streams_by_mode"] = {m: sum(1 for s in scen if s["mode"] == m) for m in ("sse", "ndjson")}
-    chk.cov["pairs_generated"] = npairs
-    if pairs_mc:
-        chk.require(pairs_mc == npairs, f"design check explored {pairs_mc} pairs but the generator emitted {npairs}")
-        # every pair contributes its initial state, one Deliver per chunk and one Close: the design run is not vacuous
-        # exactly when it found that many distinct states
-        want = sum(len(c) + 3 for s in scen for c in s["chunkings"])
-        chk.require(states_mc == want, f"design run found {states_mc} distinct states, {want} expected (one Deliver per chunk and one Close per pair)")
+    chk.cov["pairs_generated"] = n_main
+    chk.cov["alt_chunkings_generated"] = n_alt
+    if n_mc:
+        chk.require(n_mc == n_main + n_alt, f"design check explored {n_mc} scenarios but the generator emitted {n_main} + {n_alt}")
+        # every scenario contributes its initial state, one Deliver per chunk and one Close: the design run is not
+        # vacuous exactly when it found that many distinct states
+        want = sum(len(c) + 3 for s in scen for k in ("chunkings", "alt") for c in s[k])
+        chk.require(states_mc == want, f"design run found {states_mc} distinct states, {want} expected (one Deliver per chunk and one Close per scenario)")
+    sch = pair_schedules(chk, b)
     traces = observe(chk, scen)
+    if sch:
+        traces = observe_pairs(chk, sch, b) + traces
     judge(chk, traces, "family")
     kc = chk.cov.get("pairs_with_cut_kind", {})
+    ka = chk.cov.get("alt_header_scenarios_with_cut_kind", {})
     for k in MUST_KINDS:
         chk.require(kc.get(k, 0) > 0, f"no chunking with a cut of kind {k}: the family does not exercise the mechanism")
-    chk.require(chk.cov.get("pairs_replayed", 0) == npairs, "not every generated pair was replayed and judged")
+    chk.require(ka.get("in_char", 0) > 0 and ka.get("cr_lf", 0) > 0, "no cut inside a character / terminator under the alternative Content-Types")
+    chk.require(chk.cov.get("scenarios_replayed", 0) == n_main + (len(HEADERS) - 1) * n_alt, "not every generated scenario was replayed and judged")
+    if sch:
+        ncombo = chk.cov.get("schedules_replayed", 0)
+        chk.require(ncombo >= len(sch), "not every schedule was replayed and judged")
+        chk.require(chk.cov.get("schedules_switching_mid_event", 0) > 0 and chk.cov.get("schedules_with_abandoned_stream", 0) > 0, "two-stream family does not exercise the mechanism")
     chk.cov["exhaustive"] = True
 
 
 def replay(chk: Check, path: str) -> None:
     rec = json.loads(open(path).read())
     sc = rec["scenario"]
-    if "bytes" not in sc:
-        raise core.MachineryError("replay file carries no stream (design-level counterexamples are re-run by the full check)")
-    chunkings = [[]] + ([sc["cuts"]] if sc.get("cuts") else [])
-    s = {"id": "replay", "mode": sc["mode"], "bytes": sc["bytes"], "chunkings": chunkings}
-    traces = observe(chk, [s])
-    for d in traces[0]["dec"]:
-        for c, i in zip(chunkings, d["idx"]):
-            print(f"REPLAY {d['name']} cuts={c} -> {show(d['outs'][i - 1])}")
-    judge(chk, traces, "replay")
+    if sc.get("kind") == "pair":
+        job = {"id": "replay", "kind": "pair", "streams": sc["streams"], "runs": [dict(sc["run"], mid=bool(sc["run"].get("mid", False)))]}
+        r = core.parallel_py(chk.scratch, "harness.w_stream", [job])[0]
+        t = {"id": "replay", "kind": "pair", "s": job["streams"], "runs": job["runs"], "ref": r["ref"], "outs": r["outs"], "idx": r["idx"]}
+        for i in (0, 1):
+            print(f"REPLAY stream {i + 1} {sc['streams'][i]['helper']} alone -> {show(r['ref'][i])}")
+            print(f"REPLAY stream {i + 1} {sc['streams'][i]['helper']} schedule {sc['run']['sched']} -> {show(r['outs'][i][r['idx'][i][0] - 1])}")
+        judge(chk, [t], "replay")
+    else:
+        if "bytes" not in sc:
+            raise core.MachineryError("replay file carries no stream (design-level counterexamples are re-run by the full check)")
+        chunkings = [[]] + ([sc["cuts"]] if sc.get("cuts") else [])
+        s = {"id": "replay", "mode": sc["mode"], "bytes": sc["bytes"], "chunkings": chunkings, "alt": chunkings}
+        hdr = [h for h in HEADERS if h[0] == sc.get("header", "none")] or HEADERS[:1]
+        traces = observe(chk, [s], [(hdr[0][0], hdr[0][1], hdr[0][2], hdr[0][3], "chunkings")])
+        for d in traces[0]["dec"]:
+            for c, i in zip(chunkings, d["idx"]):
+                print(f"REPLAY {d['name']} Content-Type={traces[0]['ctype'] or 'absent'} cuts={c} -> {show(d['outs'][i - 1])}")
+        judge(chk, traces, "replay")
     for f in chk.fails:
         print("REPLAY-FAIL", f["clause"], json.dumps(f["locus"]), f["detail"][:300])
